@@ -899,7 +899,7 @@ class Recorder:
 def gen_function(rng):
     """a Function spec, base inputs and optional current resource, with a label of the intended behaviour"""
     payload = e2e_json(rng, 2, top_dict=True)
-    mode = rng.choice(["ok", "ok", "ok", "skip", "depSkip", "retry", "permFail"])
+    mode = rng.choice(["ok"] * 8 + ["skip", "depSkip", "retry", "permFail"])
     pre = [
         {"assert": "=inputs.mode != 'skip'", "skip": {"message": "User disabled the Function"}},
         {"assert": "=inputs.mode != 'depSkip'", "depSkip": {"message": "Waiting on Dependency"}},
@@ -924,7 +924,7 @@ def gen_function(rng):
             "create": {"delay": rng.choice([2, 30])},
             "postconditions": [{"assert": "=has(resource.status.ready)", "retry": {"message": "Waiting for ready-state", "delay": 9}}],
             "return": {"ref": "=resource.metadata.name", "ready": "=resource.status.ready", "echo": "=inputs.payload"}}
-    state = rng.choice(["absent", "absent", "same", "same-ready", "drift", "drift", "drift-status"])
+    state = rng.choice(["absent", "absent", "same", "same-ready", "same-ready", "drift", "drift", "drift", "drift-status", "drift-status"])
     inputs = {"mode": mode, "payload": payload, "app": rng.choice(SAFE_STRS[:5]), "name": rng.choice(["n1", "obj-2"])}
     cur = None
     if state != "absent":
@@ -1270,8 +1270,13 @@ def shrink_match(case, still):
             except (KeyError, IndexError, TypeError):
                 continue
             if isinstance(nt, dict) and isinstance(na, dict):
+                named = set()
+                for d in DIRECTIVES:
+                    dv = nt.get(d)
+                    named |= set(dv) if isinstance(dv, (list, dict)) and all(isinstance(x, str) for x in dv) else set()
                 for k in list(nt):
-                    if k in DIRECTIVES or k not in na:
+                    # only parts that are identical on both sides may go: the deviation itself must stay
+                    if k in DIRECTIVES or k not in na or k in named or not strict_equal(nt[k], na[k]):
                         continue
                     t2 = set_at(t, p, {x: y for x, y in nt.items() if x != k})
                     a2 = set_at(a, p, {x: y for x, y in na.items() if x != k})
